@@ -234,3 +234,51 @@ class Run:
             self.prop, self.tier, self.cov["evaluations"], self.cov["distinct_nontrivial"],
             self.cov["discharged"], self.cov["obligations"], time.time() - self.t0))
         return 0
+
+
+class Session:
+    """an interactive implrun / modelrun process: send one command, get its output lines"""
+
+    def __init__(self, exe, mem_kb=8000000):
+        cmd = "ulimit -v %d; ulimit -s unlimited 2>/dev/null; exec %s" % (mem_kb, exe)
+        self.p = subprocess.Popen(["bash", "-c", cmd], stdin=subprocess.PIPE, stdout=subprocess.PIPE, stderr=subprocess.PIPE)
+        self.n = 0
+        self.log = []
+
+    def cmd(self, line, timeout=120):
+        import select
+        self.n += 1
+        mark = "# m%d" % self.n
+        self.log.append(line)
+        try:
+            self.p.stdin.write((line + "\n" + mark + "\n").encode())
+            self.p.stdin.flush()
+        except BrokenPipeError:
+            return ["DEAD"]
+        out, buf, deadline = [], b"", time.time() + timeout
+        fd = self.p.stdout.fileno()
+        while True:
+            if time.time() > deadline:
+                return out + ["TIMEOUT"]
+            r, _, _ = select.select([fd], [], [], 1.0)
+            if not r:
+                if self.p.poll() is not None:
+                    return out + ["DEAD"]
+                continue
+            chunk = os.read(fd, 1 << 16)
+            if not chunk:
+                return out + ["DEAD"]
+            buf += chunk
+            while b"\n" in buf:
+                l, buf = buf.split(b"\n", 1)
+                l = l.decode("utf-8", "replace")
+                if l == mark:
+                    return out
+                out.append(l)
+
+    def close(self):
+        try:
+            self.p.stdin.close()
+            self.p.wait(timeout=10)
+        except Exception:
+            self.p.kill()
